@@ -4,15 +4,18 @@ import (
 	"errors"
 	"fmt"
 	"io"
+	"sync"
 	"testing"
 
 	"github.com/ipld/go-ipld-prime/datamodel"
 	"github.com/ipld/go-ipld-prime/linking"
+	"github.com/ipld/go-ipld-prime/node/basicnode"
 	"github.com/ipld/go-ipld-prime/traversal"
 	"pgregory.net/rapid"
 
 	"verif/evid"
 	"verif/graph"
+	"verif/nodes"
 	"verif/refsel"
 	"verif/selx"
 	"verif/val"
@@ -27,6 +30,37 @@ type C15Case struct {
 }
 
 const bigBudget = 1 << 40
+
+// c15StepConstant measures, on a link-free three-level map, how many units beyond the number of segments the
+// path-directed function needs (whether the starting node is charged is the function's own business).
+var c15StepConstants sync.Map
+
+func c15StepConstant(fn string) int {
+	if v, ok := c15StepConstants.Load(fn); ok {
+		return v.(int)
+	}
+	plain := nodes.MustBuild(val.MkMap(val.Ent{K: "a", V: val.MkMap(val.Ent{K: "b", V: val.MkMap(val.Ent{K: "c", V: val.MkInt(1)})})}))
+	path := datamodel.ParsePath("a/b/c")
+	c := 0
+	for N := 0; N <= 8; N++ {
+		prog := traversal.Progress{Budget: &traversal.Budget{NodeBudget: int64(N), LinkBudget: bigBudget}}
+		var e error
+		switch fn {
+		case "Get":
+			_, e = prog.Get(plain, path)
+		case "Focus":
+			e = prog.Focus(plain, path, func(traversal.Progress, datamodel.Node) error { return nil })
+		default:
+			_, e = prog.FocusedTransform(plain, path, func(_ traversal.Progress, n datamodel.Node) (datamodel.Node, error) { return n, nil }, false)
+		}
+		if e == nil {
+			c = N - 3
+			break
+		}
+	}
+	c15StepConstants.Store(fn, c)
+	return c
+}
 
 func isPrefix(a, b []string) bool {
 	if len(a) > len(b) {
@@ -245,6 +279,102 @@ func c15Check(c C15Case, rec *evid.Rec) error {
 					binding["get-link-budget"] = true
 				}
 				rec.Class("gets")
+			}
+		}
+		// 2c. node budget on the same functions. Get / Focus: every step along the path costs one unit, whether it
+		// stays in the block or crosses links (those are charged to the link budget): the threshold is "number
+		// of segments + c", c being what the function needs beyond the segment count on a plain link-free map
+		// (measured, not assumed). FocusedTransform has its own accounting at links, so its threshold T is
+		// measured on the path itself and only two things are required of it: below T the budget error, from T on
+		// success; and every further step taken below the end of the existing data (createParents) costs exactly
+		// one more unit.
+		S := path.Len()
+		for _, fn := range []string{"Get", "Focus"} {
+			need := S + c15StepConstant(fn)
+			for N := need - 2; N <= need+1; N++ {
+				if N < 0 {
+					continue
+				}
+				prog := traversal.Progress{Cfg: cfg(), Budget: &traversal.Budget{NodeBudget: int64(N), LinkBudget: bigBudget}}
+				var got datamodel.Node
+				gerr := evid.Guard(fn, func() error {
+					var e error
+					if fn == "Get" {
+						got, e = prog.Get(real.Root, path)
+					} else {
+						e = prog.Focus(real.Root, path, func(_ traversal.Progress, n datamodel.Node) error { got = n; return nil })
+					}
+					return e
+				})
+				if N >= need {
+					if gerr != nil {
+						return fmt.Errorf("%s along %d segments (%d links crossed) needs a node budget of %d like any path of that length; with %d it returned %v", fn, S, Lp, need, N, gerr)
+					}
+					if eq, _ := deepEqualGuarded(got, full); !eq {
+						return fmt.Errorf("%s of %q with a sufficient node budget %d returns another node", fn, path, N)
+					}
+				} else {
+					if gerr == nil || !budgetErr(gerr) {
+						return fmt.Errorf("%s along %d segments (%d links crossed) needs a node budget of %d like any path of that length; with %d: want ErrBudgetExceeded, got %v", fn, S, Lp, need, N, gerr)
+					}
+					binding["get-node-budget"] = true
+				}
+				rec.Class("gets-node-budget:" + fn)
+			}
+		}
+		newLeaf := basicnode.NewString("made")
+		threshold := func(p datamodel.Path, create bool) (int, error) {
+			run := func(b *traversal.Budget) error {
+				return evid.Guard("FocusedTransform", func() error {
+					_, e := traversal.Progress{Cfg: cfg(), Budget: b}.FocusedTransform(real.Root, p, func(_ traversal.Progress, n datamodel.Node) (datamodel.Node, error) {
+						if create {
+							return newLeaf, nil
+						}
+						return n, nil
+					}, create)
+					return e
+				})
+			}
+			if run(nil) != nil {
+				return -1, nil // not a path this function can follow on this graph
+			}
+			T := -1
+			for N := 0; N <= p.Len()+Lp+4; N++ {
+				e := run(&traversal.Budget{NodeBudget: int64(N), LinkBudget: bigBudget})
+				switch {
+				case e == nil && T < 0:
+					T = N
+				case e != nil && T >= 0:
+					return -1, fmt.Errorf("FocusedTransform of %q succeeds with a node budget of %d but with %d returns %v", p, T, N, e)
+				case e != nil && !budgetErr(e):
+					return -1, fmt.Errorf("FocusedTransform of %q, which succeeds without a budget, with a node budget of %d: want ErrBudgetExceeded, got %v", p, N, e)
+				}
+			}
+			if T < 0 {
+				return -1, fmt.Errorf("FocusedTransform of %q succeeds without a budget but with no node budget up to %d", p, p.Len()+Lp+4)
+			}
+			rec.Class("gets-node-budget:FocusedTransform")
+			return T, nil
+		}
+		if _, err := threshold(path, false); err != nil {
+			return err
+		}
+		if full.Kind() == datamodel.Kind_Map {
+			p1 := path.AppendSegmentString("zz-made-1")
+			T1, err := threshold(p1, true)
+			if err != nil {
+				return err
+			}
+			for extra := 1; extra <= 2 && T1 >= 0; extra++ {
+				p1 = p1.AppendSegmentString(fmt.Sprintf("zz-made-%d", extra+1))
+				Tn, err := threshold(p1, true)
+				if err != nil {
+					return err
+				}
+				if Tn >= 0 && Tn != T1+extra {
+					return fmt.Errorf("FocusedTransform creating parents: a new entry under %q needs a node budget of %d, one %d steps further below needs %d (each step costs one)", path, T1, extra, Tn)
+				}
+				binding["transform-createparents-node-budget"] = true
 			}
 		}
 	}
